@@ -82,6 +82,16 @@ def build_events():
     amb1 = U.notebook([cand_other, cand_same], 4, {})
     amb2 = U.notebook([cand_same, cand_other], 4, {})
     diffs.append(('d13:alignment decided by outputs (look-alike last)', base_amb, amb2))
+    # the same pair of long, similar texts met first as cell sources (compared without a length cut-off) and later as stream outputs (cut-off at 1000
+    # characters) and as text/plain results: a memo of string comparisons must not carry an answer across the two contexts
+    long1 = ''.join('step %03d: residual=%d.%03d converged=no\n' % (k, k * 7 % 13, k * 37 % 1000) for k in range(40))
+    long2 = long1.replace('step 007', 'step 7').replace('converged=no\n', 'converged=yes\n', 2)
+    assert 1000 < len(long1) < 10000 and long1 != long2
+    diffs.append(('d14:long similar texts as sources of id-less cells', U.notebook([U.md_cell(long1), U.md_cell('tail\n')], 4, {}), U.notebook([U.md_cell('head\n'), U.md_cell(long2)], 4, {})))
+    diffs.append(('d15:the same long texts as stream outputs', U.notebook([U.code_cell('run()\n', outputs=[U.stream(long1)], ec=1, id='L0')], 5, {}),
+                  U.notebook([U.code_cell('run()\n', outputs=[U.stream(long2)], ec=1, id='L0')], 5, {})))
+    diffs.append(('d16:the same long texts as text/plain results', U.notebook([U.code_cell('run()\n', outputs=[U.exec_result({'text/plain': long1}, ec=1)], ec=1, id='L0')], 5, {}),
+                  U.notebook([U.code_cell('run()\n', outputs=[U.exec_result({'text/plain': long2}, ec=1)], ec=1, id='L0')], 5, {})))
     merges = [
         ('m0:S45 same-line conflict', S['S45'], d1(S['S45'], 'src@0:repl1:a'), d1(S['S45'], 'src@0:repl1:b'), ['inline', None, None, True]),
         ('m1:S45 outputs conflict', S['S45'], d1(S['S45'], 'out@0:append:Ostream'), d1(S['S45'], 'out@0:append:Oerr'), ['inline', None, None, True]),
